@@ -16,4 +16,20 @@ PROPS = {
         "level_note": "Trusted: Lean kernel (+propext, Quot.sound, Classical.choice where printed in the evidence), the hand-written model's fidelity as validated by the correspondence run, the Go harness and Lean JSON driver. Go maps are modelled as list-sets; the model covers the operations templates can call, not AddVar (covered under C01/C14).",
         "technique": "Lean 4 proof (induction over histories, invariants, pigeonhole) + differential correspondence model vs. real Registry/MethodScope",
     },
+    "C16": {
+        "needs": [],
+        "extract": True,
+        "harness": "H-funcs: template_funcs.FuncMap through the real text/template engine vs Mockery.Tmpl.funcApply (table regenerated from funcmap.go)",
+        "rule": "every function of the map in turn, arguments drawn from pools of empty / ASCII / multi-byte / invalid-UTF-8 strings (extra arguments are often prefixes, suffixes or substrings of the subject), 64-bit boundary integers, zero divisors, empty argument lists; a case is non-trivial iff distinct (canonical JSON), some argument is non-empty and the result is not the subject returned unchanged",
+        "trusted": COMMON_TRUST + [
+            "regenerated: Generated/FuncMap.lean (name -> callee, argument permutation; golint initialisms) by harness/verifx (go/ast) on every run",
+            "modelled, not verified (validated by the correspondence run only): Go's strings/utf8/filepath/regexp.QuoteMeta/xstrings.FirstRuneTo* as transcribed in Tmpl/Bytes.lean, Tmpl/Path.lean, Tmpl/Funcs.lean; Unicode classification/case mapping as the static table Tmpl/UnicodeTable.lean (generated from Go's unicode package for the listed code-point ranges)",
+            "outside the model (totality checked on the implementation only): camelcase/snakecase/kebabcase word splitting, matchString (regexp engine), readFile/getenv/expandEnv (environment), ceil/floor/round (floats), randInt",
+            "text/template's argument passing and its conversion of panics inside functions into template errors",
+        ],
+        "assumptions": ["Go int is 64-bit", "code points outside the generated Unicode table are reported as unmodelled, never guessed"],
+        "level_text": "Theorems for all byte strings and all 64-bit integers about the reference functions (substring/prefix/suffix specs, split/join inverses, arithmetic folds, totality, exported/firstIsLower first-character specs) and decide-checked theorems over the function table regenerated from funcmap.go on every run (every string closure passes the subject last; every name bound to its documented namesake); the reference functions are tied to the real library by a differential run through text/template.",
+        "level_note": "Partial: camelcase/snakecase/kebabcase, matchString, readFile/getenv/expandEnv, ceil/floor/round, randInt are not modelled (implementation-side totality check only). Unicode case tables are a parameter of the theorems and a generated table in the driver. Trusted: Lean kernel, the extractor (verifx), the Go harness and the Lean JSON driver.",
+        "technique": "Lean 4 proof (induction over byte strings / argument lists; decide over a table regenerated from funcmap.go) + differential correspondence through text/template",
+    },
 }
